@@ -6,99 +6,9 @@ From Coq Require Import ZifyN ZifyBool ZifyNat.
 From DV Require Import Base.Outcome Base.Bytes Base.Names Base.PName
   C05.Schema C05.Gen C05.Model C05.OptModel C05.SvcModel
   C05.ProofsA C05.ProofsB C05.ProofsC C05.ProofsD C05.ProofsE C05.ProofsF C05.ProofsG C05.ProofsH C05.Proofs.
-From DV Require C01.Proofs.
 Import ListNotations.
 Local Open Scope N_scope.
 Ltac Zify.zify_post_hook ::= Z.div_mod_to_equations.
-
-(* ---- the message name reader is sound (C01): what it returns is a valid name.
-   dec_sound with the bound on lim that C01's theorem needs. *)
-Definition dec_sound_in (dec : decoder) : Prop :=
-  forall m pos lim n e, wf_bytes m -> lim <= mlen m -> dec m pos lim = Ok (n, e) -> valid_abs n.
-
-Lemma dec_sound_in_of dec : dec_sound dec -> dec_sound_in dec.
-Proof. intros H m pos lim n e Hm _ Hd. eapply H; eauto. Qed.
-
-Theorem pname_dec_sound : dec_sound_in pname_dec.
-Proof.
-  intros m pos lim n e Hm Hl H. unfold pname_dec, decode_name in H.
-  destruct (parse_ref m pos lim) as [p| | |] eqn:Ep; try discriminate. cbn [bind] in H.
-  destruct (C01.Proofs.parse_ref_sound m pos lim p Ep Hl Hm) as [ls [Hls [Hv [Hlen H255]]]].
-  rewrite Hls in H. cbn [bind fst] in H. injection H as <- _.
-  split; [exact Hv|lia].
-Qed.
-
-Theorem pname_nc_dec_sound strict : dec_sound_in (pname_nc_dec strict).
-Proof.
-  intros m pos lim n e Hm Hl H. unfold pname_nc_dec in H.
-  destruct (parse_ref m pos lim) as [p| | |] eqn:Ep; try discriminate. cbn [bind] in H.
-  destruct (pn_compressed p); [discriminate|].
-  destruct (strict && negb (pn_end p - pos =? pn_len p)); [discriminate|].
-  destruct (C01.Proofs.parse_ref_sound m pos lim p Ep Hl Hm) as [ls [Hls [Hv [Hlen H255]]]].
-  rewrite Hls in H. cbn [bind fst] in H. injection H as <- _.
-  split; [exact Hv|lia].
-Qed.
-
-(* parse results are well-formed for a reader that is sound within bounds *)
-Section SoundIn.
-Variable dec : decoder.
-Hypothesis Hsound : dec_sound_in dec.
-
-Lemma parse_field_wf_in f m pos lim x e :
-  wf_bytes m -> lim <= mlen m ->
-  parse_field dec f m pos lim = Ok (x, e) -> wf_fval false f x = true.
-Proof.
-  intros Hm Hl H. destruct f; try (eapply (parse_field_wf flat_dec flat_dec_sound); eauto; fail).
-  cbn [parse_field] in H.
-  destruct (dec m pos lim) as [[n p]| | |] eqn:E; try discriminate.
-  cbn [bind fst snd] in H. injection H as <- _. cbn [wf_fval].
-  apply valid_relb_spec. eapply Hsound; eauto.
-Qed.
-
-Lemma parse_fields_wf_in s : forall m pos lim v e,
-  wf_bytes m -> lim <= mlen m ->
-  parse_fields dec s m pos lim = Ok (v, e) -> wf_fvals false s v = true.
-Proof.
-  induction s as [|f s IH]; intros m pos lim v e Hm Hl H; cbn [parse_fields] in H.
-  - injection H as <- _. reflexivity.
-  - destruct (parse_field dec f m pos lim) as [[x p]| | |] eqn:Ef; try discriminate.
-    cbn [bind fst snd] in H.
-    destruct (parse_fields dec s m p lim) as [[v' p']| | |] eqn:Es; try discriminate.
-    cbn [bind fst snd] in H. injection H as <- _. cbn [wf_fvals].
-    rewrite (parse_field_wf_in _ _ _ _ _ _ Hm Hl Ef). eapply IH; eauto.
-Qed.
-
-Lemma parse_rdata_wf_in s m pos lim v :
-  wf_bytes m -> lim <= mlen m ->
-  parse_rdata dec s m pos lim = Ok v -> wf_fvals false (s_fields s) v = true.
-Proof.
-  intros Hm Hl H. unfold parse_rdata in H.
-  destruct (parse_type dec s m pos lim) as [[v' e]| | |] eqn:E; try discriminate.
-  cbn [bind fst snd] in H. destruct (e =? lim); [|discriminate].
-  destruct (post_check (s_post s) v'); [discriminate|]. injection H as <-.
-  unfold parse_type in E. destruct (s_long s) as [k|].
-  - destruct (lim - pos <? k); [discriminate|]. destruct (65535 <? lim - pos - k); [discriminate|].
-    eapply parse_fields_wf_in; eauto.
-  - eapply parse_fields_wf_in; eauto.
-Qed.
-End SoundIn.
-
-(* RDATA accepted from a message -- embedded names possibly compressed, read by
-   the message name reader -- re-composes (uncompressed) to octets that the
-   same reader parses to the same value.  No hypothesis on the reader is left. *)
-Theorem table_recompose_compressed t s m pos lim v pre post :
-  schema_of t = Some s -> wf_bytes m -> lim <= mlen m ->
-  parse_rdata pname_dec s m pos lim = Ok v ->
-  total_len s v <= 65535 ->
-  parse_rdata pname_dec s (pre ++ compose s v ++ post) (len pre) (len pre + len (compose s v)) = Ok v.
-Proof.
-  intros Hs Hm Hl Hp Ht. apply parse_compose.
-  - apply pname_dec_complete.
-  - eapply schema_of_wf; eauto.
-  - unfold wf_value. rewrite (parse_rdata_wf_in pname_dec pname_dec_sound s m pos lim v Hm Hl Hp).
-    rewrite (parse_rdata_post pname_dec s m pos lim v Hp).
-    apply N.leb_le in Ht. rewrite Ht. reflexivity.
-Qed.
 
 (* ---- canonical form, label by label: no upper-case ASCII octet is left in
    any label of a name that compose_canonical_rdata lower-cases *)
@@ -133,59 +43,12 @@ Proof.
 Qed.
 
 (* ---- the known constructor classes, one witness each, and what is excluded *)
-Definition big (k : N) : bytes := N.iter k (cons 0) [].
-
-Lemma ctor_long_witnesses :
-  (* ctor_long_TLSA, SSHFP, OPENPGPKEY, ZONEMD, CAA: the constructor accepts, rdlen() panics *)
-  (let v := [VNum 0; VNum 0; VNum 0; VBytes (big 65533)] in
-   ctor_accepts (plain [U8; U8; U8; Rest]) v = true /\ rdlen (plain [U8; U8; U8; Rest]) false v = Panic P_LONG) /\
-  (let v := [VNum 0; VNum 0; VBytes (big 65534)] in
-   ctor_accepts (plain [U8; U8; Rest]) v = true /\ rdlen (plain [U8; U8; Rest]) false v = Panic P_LONG) /\
-  (let v := [VBytes (big 65536)] in
-   ctor_accepts (plain [Rest]) v = true /\ rdlen (plain [Rest]) false v = Panic P_LONG) /\
-  (let v := [VNum 0; VNum 0; VNum 0; VBytes (big 65530)] in
-   ctor_accepts (plain [U32; U8; U8; FRest 12]) v = true /\ rdlen (plain [U32; U8; U8; FRest 12]) false v = Panic P_LONG) /\
-  (let v := [VNum 0; VBytes [97]; VBytes (big 65533)] in
-   ctor_accepts (plain [U8; CaaTagStr; Rest]) v = true /\ rdlen (plain [U8; CaaTagStr; Rest]) false v = Panic P_LONG) /\
-  (* ctor_long_IPSECKEY *)
-  (let v := [VNum 0; VNum 0; VNum 1; VBytes (big 65533)] in
-   ctor_accepts (ipseckey_schema 0) v = true /\ rdlen (ipseckey_schema 0) false v = Panic P_LONG).
-Proof. vm_compute. repeat split; reflexivity. Qed.
-
-Theorem ctor_long_refuted :
-  forall t, In t [52; 44; 61; 63; 257] ->
-  exists s v, schema_of t = Some s /\ ctor_accepts s v = true /\ rdlen s false v = Panic P_LONG.
-Proof.
-  pose proof ctor_long_witnesses as [H1 [H2 [H3 [H4 [H5 _]]]]].
-  intros t [<-|[<-|[<-|[<-|[<-|[]]]]]]; eexists; eexists; (split; [reflexivity|]).
-  - exact H1. - exact H2. - exact H3. - exact H4. - exact H5.
-Qed.
-
-Theorem ctor_long_ipseckey_refuted :
-  exists v, ctor_accepts (ipseckey_schema 0) v = true /\ rdlen (ipseckey_schema 0) false v = Panic P_LONG.
-Proof. pose proof ctor_long_witnesses as [_ [_ [_ [_ [_ H]]]]]. eexists. exact H. Qed.
-
 (* ctor_reparse_IPSECKEY: accepted by new(), refused by parse; everything else new() accepts
    round-trips (exclusion: the key-less value with a key algorithm, over-long values) *)
 Theorem ctor_reparse_ipseckey_refuted :
   ctor_accepts (ipseckey_schema 0) [VNum 10; VNum 0; VNum 2; VBytes []] = true /\
   ipseckey_parse (compose (ipseckey_schema 0) [VNum 10; VNum 0; VNum 2; VBytes []]) 0 3 = Err E_SHORT.
 Proof. vm_compute. auto. Qed.
-
-Theorem ipseckey_ctor_sound g v pre post :
-  g <= 3 -> ctor_accepts (ipseckey_schema g) v = true ->
-  overlong (ipseckey_schema g) v = false -> post_ok (PIpseckey g) v = true ->
-  ipseckey_parse (pre ++ compose (ipseckey_schema g) v ++ post) (len pre)
-    (len pre + len (compose (ipseckey_schema g) v)) = Ok v /\
-  rdlen (ipseckey_schema g) false v = Ok (Some (len (compose (ipseckey_schema g) v))).
-Proof.
-  intros Hg Hc Ho Hp. apply ipseckey_parse_compose; [exact Hg|].
-  apply ctor_accepts_wf; auto.
-  unfold short_rest, ipseckey_schema, gateway_fields. cbn [s_fields].
-  destruct v as [|a [|b [|c v]]]; try reflexivity.
-  destruct (g =? 1); [|destruct (g =? 2); [|destruct (g =? 3)]]; cbn [app short_rest_fields U8 V4 V6 NameU Rest];
-    repeat match goal with |- context [match ?x with _ => _ end] => destruct x; try reflexivity end.
-Qed.
 
 (* svc_ctor_reparse_TLSGROUPS: TlsSupportedGroups::from_keys writes the keys one
    after the other and checks only the total length *)
